@@ -52,6 +52,38 @@ pub fn child_recurse(args: &[String]) {
 /// runs the child with a watchdog; returns (finished, captured stream or file content)
 /// child: `fvh child buflog <max> <len,len,…>` — the in-memory log target (`log_to_buffer`): logs one
 /// record per length and prints which records the snapshot holds afterwards (`index/length …`)
+/// child: `fvh child bufframe <max> <hex message>...` — the messages go to the in-memory log target;
+/// prints the snapshot text as hex
+pub fn child_bufframe(args: &[String]) {
+    let max: usize = args[0].parse().unwrap();
+    let (boxed, handle) = Logger::with(LogSpecification::trace()).log_to_buffer(max, Some(crate::props::flw::raw_format)).build().unwrap();
+    for h in &args[1..] {
+        let m = crate::util::unhexs(h).unwrap();
+        boxed.log(&log::Record::builder().level(log::Level::Info).target("t").args(format_args!("{}", m)).build());
+    }
+    let mut snap = flexi_logger::Snapshot::new();
+    let _ = handle.update_snapshot(&mut snap);
+    println!("{}", crate::util::hexs(&snap.text));
+    std::mem::forget(handle);
+    std::process::exit(0);
+}
+
+/// C20 for the in-memory log target: message texts with and without line breaks at the end
+pub fn gen_bufframe(tier: &str, seed: u64) -> Vec<Vec<String>> {
+    let mut r = crate::util::Rng::new(seed ^ 0xBF4A);
+    let mut cases = Vec::new();
+    for k in 0..(if tier == "thorough" { 60 } else { 12 }) {
+        let msgs: Vec<String> = (0..r.range(1, 8)).map(|i| {
+            let body = format!("{i}:{}", "x".repeat(r.below(12) as usize));
+            crate::util::hexs(&match r.below(6) { 0 => format!("{body}\n"), 1 => format!("{body}\n\n"), 2 => format!("{body}\r\n"), 3 => format!("a\nb {body}"), _ => body })
+        }).collect();
+        // (no empty format output here: the in-memory target skips it by design — `if !logline.is_empty()` —,
+        //  which `Model/Buf` mirrors; see DESIGN 11.9)
+        cases.push(vec![format!("CASE std C20 bf{k}"), format!("BUFFRAME 100000 {}", msgs.join(" ")), "END".into()]);
+    }
+    cases
+}
+
 pub fn child_buflog(args: &[String]) {
     let max: usize = args[0].parse().unwrap();
     let (boxed, handle) = Logger::with(LogSpecification::trace()).log_to_buffer(max, Some(crate::props::flw::raw_format)).build().unwrap();
